@@ -255,6 +255,26 @@ func (w *walker) bareOps(s ast.Stmt) {
 
 func cloneLocks(l []string) []string { return append([]string{}, l...) }
 
+// lockWithContextTarget: for `if err := lockWithContext(ctx, &X); err != nil {...}` the expression X, else nil.
+func lockWithContextTarget(x *ast.IfStmt) ast.Expr {
+	as, ok := x.Init.(*ast.AssignStmt)
+	if !ok || len(as.Rhs) != 1 {
+		return nil
+	}
+	c, ok := as.Rhs[0].(*ast.CallExpr)
+	if !ok || len(c.Args) != 2 {
+		return nil
+	}
+	if id, ok := c.Fun.(*ast.Ident); !ok || id.Name != "lockWithContext" {
+		return nil
+	}
+	u, ok := c.Args[1].(*ast.UnaryExpr)
+	if !ok || u.Op != token.AND {
+		return nil
+	}
+	return u.X
+}
+
 func (w *walker) lockOp(c *ast.CallExpr) (lock string, acquire, release bool) {
 	se, ok := c.Fun.(*ast.SelectorExpr)
 	if !ok {
@@ -454,6 +474,20 @@ func (w *walker) stmt(s ast.Stmt, locks []string, inLit bool) []string {
 		}
 		w.leakCheck(locks, w.p.fset.Position(x.Pos()).Line)
 	case *ast.IfStmt:
+		// `if err := lockWithContext(ctx, &mu); err != nil { return ... }`: the mutex is held after the statement,
+		// not inside its body (the helper of mailbox/client_conn.go: Lock that gives up when the context ends)
+		if target := lockWithContextTarget(x); target != nil && x.Else == nil {
+			w.exprAccesses(x.Cond, locks)
+			w.block(x.Body.List, cloneLocks(locks), inLit)
+			l := exprStr(w.p, target)
+			if w.qual != nil {
+				w.qual[l] = w.qualLock(target)
+			}
+			if w.acqs != nil {
+				*w.acqs = append(*w.acqs, acqRow{fn: w.fn, lock: w.qual[l], held: w.qualHeld(locks)})
+			}
+			return append(locks, l)
+		}
 		if x.Init != nil {
 			locks = w.stmt(x.Init, locks, inLit)
 		}
